@@ -86,3 +86,31 @@ Definition uniq_check (keys : list key) : bool := uniq_pairs_ok (uniq_min keys) 
 (* the struct tags MigrateTables/OpenTables act on: `table:""` and `table:"-"` are skipped *)
 Definition table_tags (tags : list key) : list key :=
   filter (fun k => match k with [] => false | _ => negb (bytes_eqb k [45%N]) end) tags.
+
+(* reflect.go: MigrateTables / OpenTables read the `table` tags of the struct type they are given on
+   every call (no state between calls): field number (counting bound fields from 1) and prefix. *)
+Fixpoint bound_fields_from (n : nat) (tags : list key) : list (nat * key) :=
+  match tags with
+  | [] => []
+  | t :: r =>
+      match table_tags [t] with
+      | [] => bound_fields_from n r
+      | _ => (n, t) :: bound_fields_from (S n) r
+      end
+  end.
+Definition migrate_tables (tags : list key) : list (nat * key) := bound_fields_from 1 tags.
+(* a process calling it on several struct types in turn *)
+Definition migrate_history (calls : list (list key)) : list (list (nat * key)) := map migrate_tables calls.
+
+(* NOT the pinned code: a variant memoizing the parsed tags per type NAME (what a cache keyed by
+   reflect.Type.String() does when two types print identically) *)
+Fixpoint migrate_history_cached (cache : list (nat * list (nat * key))) (calls : list (nat * list key))
+  : list (list (nat * key)) :=
+  match calls with
+  | [] => []
+  | (name, tags) :: r =>
+      match find (fun c => Nat.eqb (fst c) name) cache with
+      | Some c => snd c :: migrate_history_cached cache r
+      | None => let f := migrate_tables tags in f :: migrate_history_cached ((name, f) :: cache) r
+      end
+  end.
